@@ -50,6 +50,10 @@ func (pr *printer) probe(what, expr string) string {
 		return expr
 	}
 	k := len(pr.probes)
+	if what == "emitter" && expr == "h.NextEmitter()" {
+		pr.probes = append(pr.probes, ProbeInfo{What: what, Next: true})
+		return "rt.ArgNext(h, h.NextEmitter())"
+	}
 	pr.probes = append(pr.probes, ProbeInfo{What: what})
 	return fmt.Sprintf("rt.Arg(h, %d, %s)", k, expr)
 }
@@ -588,6 +592,10 @@ func (pr *printer) flow(f *FlowP) string {
 							val = v
 						}
 						a = append(a, pr.probe("fallback", val))
+						if val != "" && val[0] == 'f' && pr.mutVar == "" && (t.ID+k)%4 == 0 {
+							// ... and which the very next argument of the directive already overwrites
+							pr.mutVar, pr.mutNew = val, fmt.Sprintf("%s(%d)", pr.mk(f.Types, o), MutVal)
+						}
 					}
 					return "cff.FallbackWith(" + strings.Join(a, ", ") + ")"
 				})
